@@ -208,7 +208,7 @@ local macro "II(" f:ident ")" : term =>
 abbrev PS : Fin 6 → Fin 6 → K := (mat6 (vec6 p0_0 p0_1 p0_2 p0_3 0 0) (vec6 p1_0 p1_1 p1_2 p1_3 0 0) (vec6 p2_0 p2_1 p2_2 p2_3 0 0) (vec6 p3_0 p3_1 p3_2 p3_3 0 0) (vec6 0 0 0 0 0 0) (vec6 0 0 0 0 0 0))
 abbrev FS : M3 K := M3.ofTens [F0, F1, F2, F3, F4]
 
-section to
+section toS
 variable (T0 T1 T2 T3 : K)
 theorem N2_L_toPK2 :
     [TT(Gen2S.N2_L_toPK2_S0), TT(Gen2S.N2_L_toPK2_S1), TT(Gen2S.N2_L_toPK2_S2), TT(Gen2S.N2_L_toPK2_S3)]
@@ -245,7 +245,7 @@ theorem N2_E_toCauchy :
   simp only [gen_simp, PS, dot4, mat6, vec6, List.cons.injEq, and_true]
   repeat' apply And.intro
   all_goals ring
-end to
+end toS
 
 section inv
 variable (X0 X1 X2 X3 ip0_0 ip0_1 ip0_2 ip0_3 ip1_0 ip1_1 ip1_2 ip1_3 ip2_0 ip2_1 ip2_2 ip2_3 ip3_0 ip3_1 ip3_2 ip3_3 : K)
@@ -267,27 +267,26 @@ end inv
 section roundtrip
 variable (T0 T1 T2 T3 ip0_0 ip0_1 ip0_2 ip0_3 ip1_0 ip1_1 ip1_2 ip1_3 ip2_0 ip2_1 ip2_2 ip2_3 ip3_0 ip3_1 ip3_2 ip3_3 : K)
 theorem N2_L_PK2_roundtrip
-    (hinv : ∀ k j : Fin 4, dot4 (PS p0_0 p0_1 p0_2 p0_3 p1_0 p1_1 p1_2 p1_3 p2_0 p2_1 p2_2 p2_3 p3_0 p3_1 p3_2 p3_3 ⟨k, by omega⟩) (fun i => IPS ip0_0 ip0_1 ip0_2 ip0_3 ip1_0 ip1_1 ip1_2 ip1_3 ip2_0 ip2_1 ip2_2 ip2_3 ip3_0 ip3_1 ip3_2 ip3_3 i ⟨j, by omega⟩) = if k = j then 1 else 0) :
+    (hinv : ∀ k j : Fin 6, k.val < 4 → j.val < 4 → dot4 (PS p0_0 p0_1 p0_2 p0_3 p1_0 p1_1 p1_2 p1_3 p2_0 p2_1 p2_2 p2_3 p3_0 p3_1 p3_2 p3_3 k) (fun i => IPS ip0_0 ip0_1 ip0_2 ip0_3 ip1_0 ip1_1 ip1_2 ip1_3 ip2_0 ip2_1 ip2_2 ip2_3 ip3_0 ip3_1 ip3_2 ip3_3 i j) = if k = j then 1 else 0) :
     [Gen2S.N2_L_fromPK2_T0 c c3 fn vp0 vp1 vp2 m00 m01 m10 m11 e0 e1 e2 p0_0 p0_1 p0_2 p0_3 p1_0 p1_1 p1_2 p1_3 p2_0 p2_1 p2_2 p2_3 p3_0 p3_1 p3_2 p3_3 F0 F1 F2 F3 F4 (Gen2S.N2_L_toPK2_S0 c c3 fn vp0 vp1 vp2 m00 m01 m10 m11 e0 e1 e2 p0_0 p0_1 p0_2 p0_3 p1_0 p1_1 p1_2 p1_3 p2_0 p2_1 p2_2 p2_3 p3_0 p3_1 p3_2 p3_3 F0 F1 F2 F3 F4 T0 T1 T2 T3) (Gen2S.N2_L_toPK2_S1 c c3 fn vp0 vp1 vp2 m00 m01 m10 m11 e0 e1 e2 p0_0 p0_1 p0_2 p0_3 p1_0 p1_1 p1_2 p1_3 p2_0 p2_1 p2_2 p2_3 p3_0 p3_1 p3_2 p3_3 F0 F1 F2 F3 F4 T0 T1 T2 T3) (Gen2S.N2_L_toPK2_S2 c c3 fn vp0 vp1 vp2 m00 m01 m10 m11 e0 e1 e2 p0_0 p0_1 p0_2 p0_3 p1_0 p1_1 p1_2 p1_3 p2_0 p2_1 p2_2 p2_3 p3_0 p3_1 p3_2 p3_3 F0 F1 F2 F3 F4 T0 T1 T2 T3) (Gen2S.N2_L_toPK2_S3 c c3 fn vp0 vp1 vp2 m00 m01 m10 m11 e0 e1 e2 p0_0 p0_1 p0_2 p0_3 p1_0 p1_1 p1_2 p1_3 p2_0 p2_1 p2_2 p2_3 p3_0 p3_1 p3_2 p3_3 F0 F1 F2 F3 F4 T0 T1 T2 T3) ip0_0 ip0_1 ip0_2 ip0_3 ip1_0 ip1_1 ip1_2 ip1_3 ip2_0 ip2_1 ip2_2 ip2_3 ip3_0 ip3_1 ip3_2 ip3_3, Gen2S.N2_L_fromPK2_T1 c c3 fn vp0 vp1 vp2 m00 m01 m10 m11 e0 e1 e2 p0_0 p0_1 p0_2 p0_3 p1_0 p1_1 p1_2 p1_3 p2_0 p2_1 p2_2 p2_3 p3_0 p3_1 p3_2 p3_3 F0 F1 F2 F3 F4 (Gen2S.N2_L_toPK2_S0 c c3 fn vp0 vp1 vp2 m00 m01 m10 m11 e0 e1 e2 p0_0 p0_1 p0_2 p0_3 p1_0 p1_1 p1_2 p1_3 p2_0 p2_1 p2_2 p2_3 p3_0 p3_1 p3_2 p3_3 F0 F1 F2 F3 F4 T0 T1 T2 T3) (Gen2S.N2_L_toPK2_S1 c c3 fn vp0 vp1 vp2 m00 m01 m10 m11 e0 e1 e2 p0_0 p0_1 p0_2 p0_3 p1_0 p1_1 p1_2 p1_3 p2_0 p2_1 p2_2 p2_3 p3_0 p3_1 p3_2 p3_3 F0 F1 F2 F3 F4 T0 T1 T2 T3) (Gen2S.N2_L_toPK2_S2 c c3 fn vp0 vp1 vp2 m00 m01 m10 m11 e0 e1 e2 p0_0 p0_1 p0_2 p0_3 p1_0 p1_1 p1_2 p1_3 p2_0 p2_1 p2_2 p2_3 p3_0 p3_1 p3_2 p3_3 F0 F1 F2 F3 F4 T0 T1 T2 T3) (Gen2S.N2_L_toPK2_S3 c c3 fn vp0 vp1 vp2 m00 m01 m10 m11 e0 e1 e2 p0_0 p0_1 p0_2 p0_3 p1_0 p1_1 p1_2 p1_3 p2_0 p2_1 p2_2 p2_3 p3_0 p3_1 p3_2 p3_3 F0 F1 F2 F3 F4 T0 T1 T2 T3) ip0_0 ip0_1 ip0_2 ip0_3 ip1_0 ip1_1 ip1_2 ip1_3 ip2_0 ip2_1 ip2_2 ip2_3 ip3_0 ip3_1 ip3_2 ip3_3, Gen2S.N2_L_fromPK2_T2 c c3 fn vp0 vp1 vp2 m00 m01 m10 m11 e0 e1 e2 p0_0 p0_1 p0_2 p0_3 p1_0 p1_1 p1_2 p1_3 p2_0 p2_1 p2_2 p2_3 p3_0 p3_1 p3_2 p3_3 F0 F1 F2 F3 F4 (Gen2S.N2_L_toPK2_S0 c c3 fn vp0 vp1 vp2 m00 m01 m10 m11 e0 e1 e2 p0_0 p0_1 p0_2 p0_3 p1_0 p1_1 p1_2 p1_3 p2_0 p2_1 p2_2 p2_3 p3_0 p3_1 p3_2 p3_3 F0 F1 F2 F3 F4 T0 T1 T2 T3) (Gen2S.N2_L_toPK2_S1 c c3 fn vp0 vp1 vp2 m00 m01 m10 m11 e0 e1 e2 p0_0 p0_1 p0_2 p0_3 p1_0 p1_1 p1_2 p1_3 p2_0 p2_1 p2_2 p2_3 p3_0 p3_1 p3_2 p3_3 F0 F1 F2 F3 F4 T0 T1 T2 T3) (Gen2S.N2_L_toPK2_S2 c c3 fn vp0 vp1 vp2 m00 m01 m10 m11 e0 e1 e2 p0_0 p0_1 p0_2 p0_3 p1_0 p1_1 p1_2 p1_3 p2_0 p2_1 p2_2 p2_3 p3_0 p3_1 p3_2 p3_3 F0 F1 F2 F3 F4 T0 T1 T2 T3) (Gen2S.N2_L_toPK2_S3 c c3 fn vp0 vp1 vp2 m00 m01 m10 m11 e0 e1 e2 p0_0 p0_1 p0_2 p0_3 p1_0 p1_1 p1_2 p1_3 p2_0 p2_1 p2_2 p2_3 p3_0 p3_1 p3_2 p3_3 F0 F1 F2 F3 F4 T0 T1 T2 T3) ip0_0 ip0_1 ip0_2 ip0_3 ip1_0 ip1_1 ip1_2 ip1_3 ip2_0 ip2_1 ip2_2 ip2_3 ip3_0 ip3_1 ip3_2 ip3_3, Gen2S.N2_L_fromPK2_T3 c c3 fn vp0 vp1 vp2 m00 m01 m10 m11 e0 e1 e2 p0_0 p0_1 p0_2 p0_3 p1_0 p1_1 p1_2 p1_3 p2_0 p2_1 p2_2 p2_3 p3_0 p3_1 p3_2 p3_3 F0 F1 F2 F3 F4 (Gen2S.N2_L_toPK2_S0 c c3 fn vp0 vp1 vp2 m00 m01 m10 m11 e0 e1 e2 p0_0 p0_1 p0_2 p0_3 p1_0 p1_1 p1_2 p1_3 p2_0 p2_1 p2_2 p2_3 p3_0 p3_1 p3_2 p3_3 F0 F1 F2 F3 F4 T0 T1 T2 T3) (Gen2S.N2_L_toPK2_S1 c c3 fn vp0 vp1 vp2 m00 m01 m10 m11 e0 e1 e2 p0_0 p0_1 p0_2 p0_3 p1_0 p1_1 p1_2 p1_3 p2_0 p2_1 p2_2 p2_3 p3_0 p3_1 p3_2 p3_3 F0 F1 F2 F3 F4 T0 T1 T2 T3) (Gen2S.N2_L_toPK2_S2 c c3 fn vp0 vp1 vp2 m00 m01 m10 m11 e0 e1 e2 p0_0 p0_1 p0_2 p0_3 p1_0 p1_1 p1_2 p1_3 p2_0 p2_1 p2_2 p2_3 p3_0 p3_1 p3_2 p3_3 F0 F1 F2 F3 F4 T0 T1 T2 T3) (Gen2S.N2_L_toPK2_S3 c c3 fn vp0 vp1 vp2 m00 m01 m10 m11 e0 e1 e2 p0_0 p0_1 p0_2 p0_3 p1_0 p1_1 p1_2 p1_3 p2_0 p2_1 p2_2 p2_3 p3_0 p3_1 p3_2 p3_3 F0 F1 F2 F3 F4 T0 T1 T2 T3) ip0_0 ip0_1 ip0_2 ip0_3 ip1_0 ip1_1 ip1_2 ip1_3 ip2_0 ip2_1 ip2_2 ip2_3 ip3_0 ip3_1 ip3_2 ip3_3]
     = [T0, T1, T2, T3] := by
-  have h00 := hinv 0 0
-  have h01 := hinv 0 1
-  have h02 := hinv 0 2
-  have h03 := hinv 0 3
-  have h10 := hinv 1 0
-  have h11 := hinv 1 1
-  have h12 := hinv 1 2
-  have h13 := hinv 1 3
-  have h20 := hinv 2 0
-  have h21 := hinv 2 1
-  have h22 := hinv 2 2
-  have h23 := hinv 2 3
-  have h30 := hinv 3 0
-  have h31 := hinv 3 1
-  have h32 := hinv 3 2
-  have h33 := hinv 3 3
-  simp only [PS, IPS, dot4, mat6, vec6, Fin.isValue, Fin.reduceEq, if_true, if_false, reduceIte, Fin.val_zero, Fin.val_one,
-    Fin.val_two, Fin.mk_zero, Fin.mk_one, Fin.reduceFinMk, Fin.coe_ofNat_eq_mod, Nat.reduceMod] at h00 h01 h02 h03 h10 h11 h12 h13 h20 h21 h22 h23 h30 h31 h32 h33
+  have h00 := hinv 0 0 (by decide) (by decide)
+  have h01 := hinv 0 1 (by decide) (by decide)
+  have h02 := hinv 0 2 (by decide) (by decide)
+  have h03 := hinv 0 3 (by decide) (by decide)
+  have h10 := hinv 1 0 (by decide) (by decide)
+  have h11 := hinv 1 1 (by decide) (by decide)
+  have h12 := hinv 1 2 (by decide) (by decide)
+  have h13 := hinv 1 3 (by decide) (by decide)
+  have h20 := hinv 2 0 (by decide) (by decide)
+  have h21 := hinv 2 1 (by decide) (by decide)
+  have h22 := hinv 2 2 (by decide) (by decide)
+  have h23 := hinv 2 3 (by decide) (by decide)
+  have h30 := hinv 3 0 (by decide) (by decide)
+  have h31 := hinv 3 1 (by decide) (by decide)
+  have h32 := hinv 3 2 (by decide) (by decide)
+  have h33 := hinv 3 3 (by decide) (by decide)
+  simp only [PS, IPS, dot4, mat6, vec6, Fin.isValue, Fin.reduceEq, if_true, if_false, reduceIte] at h00 h01 h02 h03 h10 h11 h12 h13 h20 h21 h22 h23 h30 h31 h32 h33
   simp only [gen_simp, List.cons.injEq, and_true]
   refine ⟨?_, ?_, ?_, ?_⟩
   · linear_combination T0 * h00 + T1 * h10 + T2 * h20 + T3 * h30
@@ -361,9 +360,9 @@ theorem zmat_cuts (hc : c * c = 2) (i : In K) : zmat i (cuts c c3 fn i) = eig (M
   repeat' apply And.intro
   all_goals c24_ring hc
 
-theorem Xc_cuts (hc : c * c = 2) (i : In K) (a : Fin 4) :
-    Xc i (cuts c c3 fn i) ⟨a, by omega⟩ = eig (Nb i) (E c ⟨a, by omega⟩) := by
-  fin_cases a <;>
+theorem Xc_cuts (hc : c * c = 2) (i : In K) (a : Fin 6) (ha : a.val < 4) :
+    Xc i (cuts c c3 fn i) a = eig (Nb i) (E c a) := by
+  fin_cases a <;> (try (exfalso; revert ha; decide)) <;>
   · simp only [Xc, Xc0, Xc1, Xc2, Xc3, Nb, cuts, Gen2TL.N2_L_material_cuts, gen_simp, eig, Mm, FE, M3.ofTens, E, M3.sym,
       M3.mul_def, M3.mul, M3.transpose, M3.mk.injEq, Fin.zero_eta, Fin.mk_one, Fin.reduceFinMk, Fin.isValue]
     repeat' apply And.intro
@@ -385,19 +384,18 @@ theorem planar_eigM (i : In K) (X : M3 K) (hX : Planar X) : Planar (eig (Mm i) X
   obtain ⟨h1, h2, h3, h4⟩ := hX
   simp only [Planar, eig, Mm, M3.mul_def, M3.mul, M3.transpose, h1, h2, h3, h4]
   refine ⟨?_, ?_, ?_, ?_⟩ <;> ring
-theorem planar_E (a : Fin 4) : Planar (E c ⟨a, by omega⟩) := by
-  fin_cases a <;> exact ⟨rfl, rfl, rfl, rfl⟩
+theorem planar_E (a : Fin 6) (ha : a.val < 4) : Planar (E c a) := by
+  fin_cases a <;> (try (exfalso; revert ha; decide)) <;> exact ⟨rfl, rfl, rfl, rfl⟩
 
-theorem so_cuts (hc : c * c = 2) (i : In K) (h01 : i.vp0 ≠ i.vp1) (a b : Fin 4) :
-    so i (cuts c c3 fn i) ⟨a, by omega⟩ ⟨b, by omega⟩
-      = 4 * D2 (lam i) (ev i) (dv i) (sv i) (eig (Mm i) (Tm c i))
-          (eig (Nb i) (E c ⟨a, by omega⟩)) (eig (Nb i) (E c ⟨b, by omega⟩)) := by
+theorem so_cuts (hc : c * c = 2) (i : In K) (h01 : i.vp0 ≠ i.vp1) (a b : Fin 6) (ha : a.val < 4) (hb : b.val < 4) :
+    so i (cuts c c3 fn i) a b
+      = 4 * D2 (lam i) (ev i) (dv i) (sv i) (eig (Mm i) (Tm c i)) (eig (Nb i) (E c a)) (eig (Nb i) (E c b)) := by
   obtain ⟨h0, h1, h2, h3, h4⟩ := coef_cuts c c3 fn i
   simp only [so]
-  rw [zmat_cuts c c3 fn hc, Xc_cuts c c3 fn hc, Xc_cuts c c3 fn hc, h0, h1, h2, h3, h4]
+  rw [zmat_cuts c c3 fn hc, Xc_cuts c c3 fn hc i a ha, Xc_cuts c c3 fn hc i b hb, h0, h1, h2, h3, h4]
   exact miehe2_eq_D2 (lam i) (ev i) (dv i) (sv i) _ _ _
     (isSym_eig _ _ (isSym_sym ..)) (isSym_eig _ _ (isSym_E c _)) (isSym_eig _ _ (isSym_E c _))
-    (planar_eigM i _ ⟨rfl, rfl, rfl, rfl⟩) (planar_eig i _ (planar_E c a)) (planar_eig i _ (planar_E c b)) h01
+    (planar_eigM i _ ⟨rfl, rfl, rfl, rfl⟩) (planar_eig i _ (planar_E c a ha)) (planar_eig i _ (planar_E c b hb)) h01
 
 theorem N2_L_material_row0 (hc : c * c = 2) (i : In K) (h01 : i.vp0 ≠ i.vp1) :
     [Gen2TL.N2_L_material_Kr0_0_full c c3 fn i, Gen2TL.N2_L_material_Kr0_1_full c c3 fn i, Gen2TL.N2_L_material_Kr0_2_full c c3 fn i, Gen2TL.N2_L_material_Kr0_3_full c c3 fn i]
@@ -407,12 +405,8 @@ theorem N2_L_material_row0 (hc : c * c = 2) (i : In K) (h01 : i.vp0 ≠ i.vp1) :
        4 * quad4 (P i) (KS i) 0 3 + 4 * D2 (lam i) (ev i) (dv i) (sv i) (eig (Mm i) (Tm c i)) (eig (Nb i) (E c 0)) (eig (Nb i) (E c 3))] := by
   simp only [Gen2TL.N2_L_material_Kr0_0_full, Gen2TL.N2_L_material_Kr0_1_full, Gen2TL.N2_L_material_Kr0_2_full, Gen2TL.N2_L_material_Kr0_3_full]
   rw [struct_row0 c c3 fn i (cuts c c3 fn i)]
-  have e0 := so_cuts c c3 fn hc i h01 0 0
-  have e1 := so_cuts c c3 fn hc i h01 0 1
-  have e2 := so_cuts c c3 fn hc i h01 0 2
-  have e3 := so_cuts c c3 fn hc i h01 0 3
-  simp only [Fin.isValue, Fin.mk_zero, Fin.mk_one, Fin.reduceFinMk, Fin.zero_eta] at e0 e1 e2 e3
-  rw [e0, e1, e2, e3]
+  rw [so_cuts c c3 fn hc i h01 0 0 (by decide) (by decide), so_cuts c c3 fn hc i h01 0 1 (by decide) (by decide),
+    so_cuts c c3 fn hc i h01 0 2 (by decide) (by decide), so_cuts c c3 fn hc i h01 0 3 (by decide) (by decide)]
 
 theorem N2_L_material_row1 (hc : c * c = 2) (i : In K) (h01 : i.vp0 ≠ i.vp1) :
     [Gen2TL.N2_L_material_Kr1_0_full c c3 fn i, Gen2TL.N2_L_material_Kr1_1_full c c3 fn i, Gen2TL.N2_L_material_Kr1_2_full c c3 fn i, Gen2TL.N2_L_material_Kr1_3_full c c3 fn i]
@@ -422,12 +416,8 @@ theorem N2_L_material_row1 (hc : c * c = 2) (i : In K) (h01 : i.vp0 ≠ i.vp1) :
        4 * quad4 (P i) (KS i) 1 3 + 4 * D2 (lam i) (ev i) (dv i) (sv i) (eig (Mm i) (Tm c i)) (eig (Nb i) (E c 1)) (eig (Nb i) (E c 3))] := by
   simp only [Gen2TL.N2_L_material_Kr1_0_full, Gen2TL.N2_L_material_Kr1_1_full, Gen2TL.N2_L_material_Kr1_2_full, Gen2TL.N2_L_material_Kr1_3_full]
   rw [struct_row1 c c3 fn i (cuts c c3 fn i)]
-  have e0 := so_cuts c c3 fn hc i h01 1 0
-  have e1 := so_cuts c c3 fn hc i h01 1 1
-  have e2 := so_cuts c c3 fn hc i h01 1 2
-  have e3 := so_cuts c c3 fn hc i h01 1 3
-  simp only [Fin.isValue, Fin.mk_zero, Fin.mk_one, Fin.reduceFinMk, Fin.zero_eta] at e0 e1 e2 e3
-  rw [e0, e1, e2, e3]
+  rw [so_cuts c c3 fn hc i h01 1 0 (by decide) (by decide), so_cuts c c3 fn hc i h01 1 1 (by decide) (by decide),
+    so_cuts c c3 fn hc i h01 1 2 (by decide) (by decide), so_cuts c c3 fn hc i h01 1 3 (by decide) (by decide)]
 
 theorem N2_L_material_row2 (hc : c * c = 2) (i : In K) (h01 : i.vp0 ≠ i.vp1) :
     [Gen2TL.N2_L_material_Kr2_0_full c c3 fn i, Gen2TL.N2_L_material_Kr2_1_full c c3 fn i, Gen2TL.N2_L_material_Kr2_2_full c c3 fn i, Gen2TL.N2_L_material_Kr2_3_full c c3 fn i]
@@ -437,12 +427,8 @@ theorem N2_L_material_row2 (hc : c * c = 2) (i : In K) (h01 : i.vp0 ≠ i.vp1) :
        4 * quad4 (P i) (KS i) 2 3 + 4 * D2 (lam i) (ev i) (dv i) (sv i) (eig (Mm i) (Tm c i)) (eig (Nb i) (E c 2)) (eig (Nb i) (E c 3))] := by
   simp only [Gen2TL.N2_L_material_Kr2_0_full, Gen2TL.N2_L_material_Kr2_1_full, Gen2TL.N2_L_material_Kr2_2_full, Gen2TL.N2_L_material_Kr2_3_full]
   rw [struct_row2 c c3 fn i (cuts c c3 fn i)]
-  have e0 := so_cuts c c3 fn hc i h01 2 0
-  have e1 := so_cuts c c3 fn hc i h01 2 1
-  have e2 := so_cuts c c3 fn hc i h01 2 2
-  have e3 := so_cuts c c3 fn hc i h01 2 3
-  simp only [Fin.isValue, Fin.mk_zero, Fin.mk_one, Fin.reduceFinMk, Fin.zero_eta] at e0 e1 e2 e3
-  rw [e0, e1, e2, e3]
+  rw [so_cuts c c3 fn hc i h01 2 0 (by decide) (by decide), so_cuts c c3 fn hc i h01 2 1 (by decide) (by decide),
+    so_cuts c c3 fn hc i h01 2 2 (by decide) (by decide), so_cuts c c3 fn hc i h01 2 3 (by decide) (by decide)]
 
 theorem N2_L_material_row3 (hc : c * c = 2) (i : In K) (h01 : i.vp0 ≠ i.vp1) :
     [Gen2TL.N2_L_material_Kr3_0_full c c3 fn i, Gen2TL.N2_L_material_Kr3_1_full c c3 fn i, Gen2TL.N2_L_material_Kr3_2_full c c3 fn i, Gen2TL.N2_L_material_Kr3_3_full c c3 fn i]
@@ -452,12 +438,8 @@ theorem N2_L_material_row3 (hc : c * c = 2) (i : In K) (h01 : i.vp0 ≠ i.vp1) :
        4 * quad4 (P i) (KS i) 3 3 + 4 * D2 (lam i) (ev i) (dv i) (sv i) (eig (Mm i) (Tm c i)) (eig (Nb i) (E c 3)) (eig (Nb i) (E c 3))] := by
   simp only [Gen2TL.N2_L_material_Kr3_0_full, Gen2TL.N2_L_material_Kr3_1_full, Gen2TL.N2_L_material_Kr3_2_full, Gen2TL.N2_L_material_Kr3_3_full]
   rw [struct_row3 c c3 fn i (cuts c c3 fn i)]
-  have e0 := so_cuts c c3 fn hc i h01 3 0
-  have e1 := so_cuts c c3 fn hc i h01 3 1
-  have e2 := so_cuts c c3 fn hc i h01 3 2
-  have e3 := so_cuts c c3 fn hc i h01 3 3
-  simp only [Fin.isValue, Fin.mk_zero, Fin.mk_one, Fin.reduceFinMk, Fin.zero_eta] at e0 e1 e2 e3
-  rw [e0, e1, e2, e3]
+  rw [so_cuts c c3 fn hc i h01 3 0 (by decide) (by decide), so_cuts c c3 fn hc i h01 3 1 (by decide) (by decide),
+    so_cuts c c3 fn hc i h01 3 2 (by decide) (by decide), so_cuts c c3 fn hc i h01 3 3 (by decide) (by decide)]
 end N2_L_material
 
 /-! ## tangent operator conversion, Eulerian setting (spatial moduli) -/
@@ -524,9 +506,9 @@ theorem zmat_cuts (hc : c * c = 2) (i : In K) : zmat i (cuts c c3 fn i) = eig (M
   repeat' apply And.intro
   all_goals c24_ring hc
 
-theorem Xc_cuts (hc : c * c = 2) (i : In K) (a : Fin 4) :
-    Xc i (cuts c c3 fn i) ⟨a, by omega⟩ = eig (Nb i) (E c ⟨a, by omega⟩) := by
-  fin_cases a <;>
+theorem Xc_cuts (hc : c * c = 2) (i : In K) (a : Fin 6) (ha : a.val < 4) :
+    Xc i (cuts c c3 fn i) a = eig (Nb i) (E c a) := by
+  fin_cases a <;> (try (exfalso; revert ha; decide)) <;>
   · simp only [Xc, Xc0, Xc1, Xc2, Xc3, Nb, cuts, Gen2TE.N2_E_spatial_cuts, gen_simp, eig, Mm, FE, M3.ofTens, E, M3.sym,
       M3.mul_def, M3.mul, M3.transpose, M3.mk.injEq, Fin.zero_eta, Fin.mk_one, Fin.reduceFinMk, Fin.isValue]
     repeat' apply And.intro
@@ -548,19 +530,18 @@ theorem planar_eigM (i : In K) (X : M3 K) (hX : Planar X) : Planar (eig (Mm i) X
   obtain ⟨h1, h2, h3, h4⟩ := hX
   simp only [Planar, eig, Mm, M3.mul_def, M3.mul, M3.transpose, h1, h2, h3, h4]
   refine ⟨?_, ?_, ?_, ?_⟩ <;> ring
-theorem planar_E (a : Fin 4) : Planar (E c ⟨a, by omega⟩) := by
-  fin_cases a <;> exact ⟨rfl, rfl, rfl, rfl⟩
+theorem planar_E (a : Fin 6) (ha : a.val < 4) : Planar (E c a) := by
+  fin_cases a <;> (try (exfalso; revert ha; decide)) <;> exact ⟨rfl, rfl, rfl, rfl⟩
 
-theorem so_cuts (hc : c * c = 2) (i : In K) (h01 : i.vp0 ≠ i.vp1) (a b : Fin 4) :
-    so i (cuts c c3 fn i) ⟨a, by omega⟩ ⟨b, by omega⟩
-      = 4 * D2 (lam i) (ev i) (dv i) (sv i) (eig (Mm i) (Tm c i))
-          (eig (Nb i) (E c ⟨a, by omega⟩)) (eig (Nb i) (E c ⟨b, by omega⟩)) := by
+theorem so_cuts (hc : c * c = 2) (i : In K) (h01 : i.vp0 ≠ i.vp1) (a b : Fin 6) (ha : a.val < 4) (hb : b.val < 4) :
+    so i (cuts c c3 fn i) a b
+      = 4 * D2 (lam i) (ev i) (dv i) (sv i) (eig (Mm i) (Tm c i)) (eig (Nb i) (E c a)) (eig (Nb i) (E c b)) := by
   obtain ⟨h0, h1, h2, h3, h4⟩ := coef_cuts c c3 fn i
   simp only [so]
-  rw [zmat_cuts c c3 fn hc, Xc_cuts c c3 fn hc, Xc_cuts c c3 fn hc, h0, h1, h2, h3, h4]
+  rw [zmat_cuts c c3 fn hc, Xc_cuts c c3 fn hc i a ha, Xc_cuts c c3 fn hc i b hb, h0, h1, h2, h3, h4]
   exact miehe2_eq_D2 (lam i) (ev i) (dv i) (sv i) _ _ _
     (isSym_eig _ _ (isSym_sym ..)) (isSym_eig _ _ (isSym_E c _)) (isSym_eig _ _ (isSym_E c _))
-    (planar_eigM i _ ⟨rfl, rfl, rfl, rfl⟩) (planar_eig i _ (planar_E c a)) (planar_eig i _ (planar_E c b)) h01
+    (planar_eigM i _ ⟨rfl, rfl, rfl, rfl⟩) (planar_eig i _ (planar_E c a ha)) (planar_eig i _ (planar_E c b hb)) h01
 
 theorem N2_E_spatial_row0 (hc : c * c = 2) (i : In K) (h01 : i.vp0 ≠ i.vp1) :
     [Gen2TE.N2_E_spatial_Kr0_0_full c c3 fn i, Gen2TE.N2_E_spatial_Kr0_1_full c c3 fn i, Gen2TE.N2_E_spatial_Kr0_2_full c c3 fn i, Gen2TE.N2_E_spatial_Kr0_3_full c c3 fn i]
@@ -570,12 +551,8 @@ theorem N2_E_spatial_row0 (hc : c * c = 2) (i : In K) (h01 : i.vp0 ≠ i.vp1) :
        4 * quad4 (P i) (KS i) 0 3 + 4 * D2 (lam i) (ev i) (dv i) (sv i) (eig (Mm i) (Tm c i)) (eig (Nb i) (E c 0)) (eig (Nb i) (E c 3))] := by
   simp only [Gen2TE.N2_E_spatial_Kr0_0_full, Gen2TE.N2_E_spatial_Kr0_1_full, Gen2TE.N2_E_spatial_Kr0_2_full, Gen2TE.N2_E_spatial_Kr0_3_full]
   rw [struct_row0 c c3 fn i (cuts c c3 fn i)]
-  have e0 := so_cuts c c3 fn hc i h01 0 0
-  have e1 := so_cuts c c3 fn hc i h01 0 1
-  have e2 := so_cuts c c3 fn hc i h01 0 2
-  have e3 := so_cuts c c3 fn hc i h01 0 3
-  simp only [Fin.isValue, Fin.mk_zero, Fin.mk_one, Fin.reduceFinMk, Fin.zero_eta] at e0 e1 e2 e3
-  rw [e0, e1, e2, e3]
+  rw [so_cuts c c3 fn hc i h01 0 0 (by decide) (by decide), so_cuts c c3 fn hc i h01 0 1 (by decide) (by decide),
+    so_cuts c c3 fn hc i h01 0 2 (by decide) (by decide), so_cuts c c3 fn hc i h01 0 3 (by decide) (by decide)]
 
 theorem N2_E_spatial_row1 (hc : c * c = 2) (i : In K) (h01 : i.vp0 ≠ i.vp1) :
     [Gen2TE.N2_E_spatial_Kr1_0_full c c3 fn i, Gen2TE.N2_E_spatial_Kr1_1_full c c3 fn i, Gen2TE.N2_E_spatial_Kr1_2_full c c3 fn i, Gen2TE.N2_E_spatial_Kr1_3_full c c3 fn i]
@@ -585,12 +562,8 @@ theorem N2_E_spatial_row1 (hc : c * c = 2) (i : In K) (h01 : i.vp0 ≠ i.vp1) :
        4 * quad4 (P i) (KS i) 1 3 + 4 * D2 (lam i) (ev i) (dv i) (sv i) (eig (Mm i) (Tm c i)) (eig (Nb i) (E c 1)) (eig (Nb i) (E c 3))] := by
   simp only [Gen2TE.N2_E_spatial_Kr1_0_full, Gen2TE.N2_E_spatial_Kr1_1_full, Gen2TE.N2_E_spatial_Kr1_2_full, Gen2TE.N2_E_spatial_Kr1_3_full]
   rw [struct_row1 c c3 fn i (cuts c c3 fn i)]
-  have e0 := so_cuts c c3 fn hc i h01 1 0
-  have e1 := so_cuts c c3 fn hc i h01 1 1
-  have e2 := so_cuts c c3 fn hc i h01 1 2
-  have e3 := so_cuts c c3 fn hc i h01 1 3
-  simp only [Fin.isValue, Fin.mk_zero, Fin.mk_one, Fin.reduceFinMk, Fin.zero_eta] at e0 e1 e2 e3
-  rw [e0, e1, e2, e3]
+  rw [so_cuts c c3 fn hc i h01 1 0 (by decide) (by decide), so_cuts c c3 fn hc i h01 1 1 (by decide) (by decide),
+    so_cuts c c3 fn hc i h01 1 2 (by decide) (by decide), so_cuts c c3 fn hc i h01 1 3 (by decide) (by decide)]
 
 theorem N2_E_spatial_row2 (hc : c * c = 2) (i : In K) (h01 : i.vp0 ≠ i.vp1) :
     [Gen2TE.N2_E_spatial_Kr2_0_full c c3 fn i, Gen2TE.N2_E_spatial_Kr2_1_full c c3 fn i, Gen2TE.N2_E_spatial_Kr2_2_full c c3 fn i, Gen2TE.N2_E_spatial_Kr2_3_full c c3 fn i]
@@ -600,12 +573,8 @@ theorem N2_E_spatial_row2 (hc : c * c = 2) (i : In K) (h01 : i.vp0 ≠ i.vp1) :
        4 * quad4 (P i) (KS i) 2 3 + 4 * D2 (lam i) (ev i) (dv i) (sv i) (eig (Mm i) (Tm c i)) (eig (Nb i) (E c 2)) (eig (Nb i) (E c 3))] := by
   simp only [Gen2TE.N2_E_spatial_Kr2_0_full, Gen2TE.N2_E_spatial_Kr2_1_full, Gen2TE.N2_E_spatial_Kr2_2_full, Gen2TE.N2_E_spatial_Kr2_3_full]
   rw [struct_row2 c c3 fn i (cuts c c3 fn i)]
-  have e0 := so_cuts c c3 fn hc i h01 2 0
-  have e1 := so_cuts c c3 fn hc i h01 2 1
-  have e2 := so_cuts c c3 fn hc i h01 2 2
-  have e3 := so_cuts c c3 fn hc i h01 2 3
-  simp only [Fin.isValue, Fin.mk_zero, Fin.mk_one, Fin.reduceFinMk, Fin.zero_eta] at e0 e1 e2 e3
-  rw [e0, e1, e2, e3]
+  rw [so_cuts c c3 fn hc i h01 2 0 (by decide) (by decide), so_cuts c c3 fn hc i h01 2 1 (by decide) (by decide),
+    so_cuts c c3 fn hc i h01 2 2 (by decide) (by decide), so_cuts c c3 fn hc i h01 2 3 (by decide) (by decide)]
 
 theorem N2_E_spatial_row3 (hc : c * c = 2) (i : In K) (h01 : i.vp0 ≠ i.vp1) :
     [Gen2TE.N2_E_spatial_Kr3_0_full c c3 fn i, Gen2TE.N2_E_spatial_Kr3_1_full c c3 fn i, Gen2TE.N2_E_spatial_Kr3_2_full c c3 fn i, Gen2TE.N2_E_spatial_Kr3_3_full c c3 fn i]
@@ -615,12 +584,8 @@ theorem N2_E_spatial_row3 (hc : c * c = 2) (i : In K) (h01 : i.vp0 ≠ i.vp1) :
        4 * quad4 (P i) (KS i) 3 3 + 4 * D2 (lam i) (ev i) (dv i) (sv i) (eig (Mm i) (Tm c i)) (eig (Nb i) (E c 3)) (eig (Nb i) (E c 3))] := by
   simp only [Gen2TE.N2_E_spatial_Kr3_0_full, Gen2TE.N2_E_spatial_Kr3_1_full, Gen2TE.N2_E_spatial_Kr3_2_full, Gen2TE.N2_E_spatial_Kr3_3_full]
   rw [struct_row3 c c3 fn i (cuts c c3 fn i)]
-  have e0 := so_cuts c c3 fn hc i h01 3 0
-  have e1 := so_cuts c c3 fn hc i h01 3 1
-  have e2 := so_cuts c c3 fn hc i h01 3 2
-  have e3 := so_cuts c c3 fn hc i h01 3 3
-  simp only [Fin.isValue, Fin.mk_zero, Fin.mk_one, Fin.reduceFinMk, Fin.zero_eta] at e0 e1 e2 e3
-  rw [e0, e1, e2, e3]
+  rw [so_cuts c c3 fn hc i h01 3 0 (by decide) (by decide), so_cuts c c3 fn hc i h01 3 1 (by decide) (by decide),
+    so_cuts c c3 fn hc i h01 3 2 (by decide) (by decide), so_cuts c c3 fn hc i h01 3 3 (by decide) (by decide)]
 end N2_E_spatial
 
 end TfelVerif.C24.Props2
